@@ -1,6 +1,7 @@
 package c12
 
 import (
+	"fmt"
 	"math"
 
 	"github.com/golang/geo/r3"
@@ -182,9 +183,68 @@ func genPt(t *rapid.T) ptCase {
 
 // genContains: half of the cases take an arbitrary point and an ancestor of
 // its leaf cell (the documented CellFromPoint(p).ContainsPoint(p) guarantee).
+// genSnapped: a point whose exact ratios (u,v) are within 8 ulps of a boundary
+// value of a fine cell (level 22..30); half of them in s,t ∈ [0.2,0.3), where the
+// ulp of u is small while du/ds > 2, so that the uv->st->ij round trip of
+// cellIDFromPoint is least accurate in ulps of u. The point is the normalised
+// exact boundary point with each minor coordinate re-set to fl(ratio·major) ± k ulps.
+var ulpSteps = []int{-8, -7, -6, -5, -4, -3, -2, -1, 0, 1, 2, 3, 4, 5, 6, 7, 8}
+
+func genSnapped(t *rapid.T, l string) s2.Point {
+	lv := rapid.IntRange(22, 30).Draw(t, l+".lv")
+	n := int64(1) << uint(lv)
+	lo, hi := int64(0), n
+	if rapid.IntRange(0, 3).Draw(t, l+".band") > 0 {
+		lo, hi = n/5, 3*n/10
+	}
+	bound := func(l string) float64 {
+		i := rapid.Int64Range(0, hi-lo).Draw(t, l+".i")
+		if rapid.Bool().Draw(t, l+".uni") {
+			i = int64(rapid.Float64Range(0, 1).Draw(t, l+".f") * float64(hi-lo))
+		}
+		return gen.STToUV(float64(lo+i) / float64(n))
+	}
+	u, v := bound(l+".u"), bound(l+".v")
+	switch rapid.IntRange(0, 3).Draw(t, l+".free") {
+	case 0:
+		u = rapid.Float64Range(-1, 1).Draw(t, l+".fu")
+	case 1:
+		v = rapid.Float64Range(-1, 1).Draw(t, l+".fv")
+	}
+	face := rapid.IntRange(0, 5).Draw(t, l+".face")
+	raw := gen.FaceUVToXYZ(face, u, v)
+	q := raw.Normalize()
+	rc := [3]float64{raw.X, raw.Y, raw.Z}
+	qc := [3]float64{q.X, q.Y, q.Z}
+	w := face % 3
+	for a := 0; a < 3; a++ {
+		if a == w {
+			continue
+		}
+		// uniform over -8..8 (rapid's IntRange favours small magnitudes; the round-off
+		// that matters is 4..7 ulps of the coordinate)
+		k := rapid.SampledFrom(ulpSteps).Draw(t, fmt.Sprintf("%s.k%d", l, a))
+		qc[a] = gen.Ulps(rc[a]*rc[w]*qc[w], k)
+	}
+	p := s2.Point{Vector: r3.Vector{X: qc[0], Y: qc[1], Z: qc[2]}}
+	if gen.Unit(p) {
+		return p
+	}
+	return gen.Fix(s2.Point{Vector: q}, s2.Point{Vector: r3.Vector{X: 1}})
+}
+
 func genContains(t *rapid.T) ptCase {
 	if rapid.Bool().Draw(t, "fromPoint") {
 		var p s2.Point
+		if rapid.Bool().Draw(t, "snapped") {
+			p = genSnapped(t, "p")
+			leaf := s2.CellFromPoint(p).ID()
+			lv := 30
+			if rapid.Bool().Draw(t, "anc") {
+				lv = rapid.IntRange(0, 30).Draw(t, "level")
+			}
+			return ptCase{uint64(leaf.Parent(lv)), gen.FromPt(p)}
+		}
 		if rapid.Bool().Draw(t, "cellish") {
 			p = genNear(t, "p", gen.CellID(t, "near"))
 		} else {
